@@ -840,10 +840,18 @@ func (vfs *OrefaFS) Rename(oldname, newname string) error {
 		}
 	}
 
+	// Directories are always locked from the root to the leaves (as an open directory
+	// that is read locks itself then its entries) : if the old parent is an ancestor
+	// of the new one, it is locked first.
+	if nParent != oParent && strings.HasPrefix(nDirName, oDirName+string(vfs.PathSeparator())) {
+		oParent.mu.Lock()
+		defer oParent.mu.Unlock()
+	}
+
 	nParent.mu.Lock()
 	defer nParent.mu.Unlock()
 
-	if nParent != oParent {
+	if nParent != oParent && !strings.HasPrefix(nDirName, oDirName+string(vfs.PathSeparator())) {
 		oParent.mu.Lock()
 		defer oParent.mu.Unlock()
 	}
